@@ -280,7 +280,8 @@ theorem inv_step (chk : Nat → Nat → Bool) (s s' : State) (l : Label) (hI : I
     case retBool => simp at hs
     case sPanic => simp at hs
     case aPanic => simp at hs
-    case sSeq | sV | sB | aSeq | aV =>
+    case retSeq => simp at hs
+    case sSeq | sV | sB | aSeq | aV | qSeq =>
       simp at hs; subst hs
       simp [WInv, RInv, LInv, Pc.inCS, Pc.inSnap] at hlk hwr hrd hlg
       refine inv_local hI t (by rfl) (by rfl) (by rfl) ?_ ?_ ?_ ?_ ?_
@@ -675,12 +676,17 @@ def OpPc : Op → Pc → Bool
     match pc with
     | .tTry | .tClear | .tUnlock | .aSeq | .aV | .aB | .aStB | .aStV | .aStSeq | .aUnlock _ | .aUnlockPanic => true
     | _ => false
+  | .sequence, pc =>
+    match pc with
+    | .qSeq => true
+    | _ => false
 
 /-- The locals hold the call's arguments; the panic path is entered only with an invalid pair. -/
 def ArgsOK (chk : Nat → Nat → Bool) : Op → Local → Prop
   | .snapshot, _ => True
   | .update b v, th => th.ub = b ∧ th.uv = v ∧ (th.pc = .aUnlockPanic → chk b v = false)
   | .tryUpdate b v, th => th.ub = b ∧ th.uv = v ∧ (th.pc = .aUnlockPanic → chk b v = false)
+  | .sequence, _ => True
 
 /-- How an operation can end. -/
 def EndOK (chk : Nat → Nat → Bool) (op : Op) (th th' : Local) : Prop :=
@@ -689,6 +695,7 @@ def EndOK (chk : Nat → Nat → Bool) (op : Op) (th th' : Local) : Prop :=
   | .update b v => (∃ r, th'.pc = .retBool r ∧ th.pc = .aUnlock r) ∨ (th'.pc = .aPanic ∧ chk b v = false)
   | .tryUpdate b v => (th'.pc = .retBool true ∧ th.pc = .aUnlock true) ∨ th'.pc = .retBool false ∨
       (th'.pc = .aPanic ∧ chk b v = false)
+  | .sequence => th'.pc = .retSeq ∧ th.pc = .qSeq
 
 theorem succ_op {chk : Nat → Nat → Bool} {op : Op} {th th' : Local} (hpc : OpPc op th.pc = true)
     (ha : ArgsOK chk op th) (h : Local.Succ chk th th') :
@@ -745,6 +752,12 @@ theorem succ_op {chk : Nat → Nat → Bool} {op : Op} {th th' : Local} (hpc : O
         | (simp [Local.next] at h2; done)
         | (simp [Local.next] at h3; done)
         | (simp_all [Local.feedUnit, OpPc, ArgsOK, EndOK, Pc.terminal]) )
+  | sequence =>
+    cases pc <;> simp [OpPc] at hpc
+    cases h with
+    | load l o val hn => simp [Local.feedLoad, OpPc, ArgsOK, EndOK, Pc.terminal]
+    | lock r hn => simp [Local.next] at hn
+    | unit h1 h2 h3 h4 => simp [Local.next] at h1
 
 
 
@@ -794,6 +807,10 @@ structure Laws (M : Mach) (chk : Nat → Nat → Bool) (ok : M.σ → Prop) (G :
   uinv : ∀ {s : M.σ} {t : Nat}, ok s → UInv (M.hist s) (M.vseq s t) (M.loc s t)
   sorted : ∀ {s : M.σ}, ok s → (M.hist s).Pairwise (fun a b => a.1 ≤ b.1)
   global : G → ∀ (s : M.σ) (t u : Nat), M.vseq s t = M.vseq s u
+  /-- `sequence()`: its single step (the relaxed load of the counter) returns the value that is the
+  caller's view of `sequence` right after the step, and that many updates are in the history. -/
+  seqRet : ∀ {s s' : M.σ} {t ts : Nat}, ok s → M.step s (.run t ts) = some s' → (M.loc s t).pc = .qSeq →
+    (M.loc s' t).sq = M.vseq s' t ∧ M.vseq s' t < (M.hist s').length
 
 /-- What is known about a completed call, in terms of the (append-only) history:
 * `snapshot` returned a pair published with a sequence number between the caller's view of
@@ -801,7 +818,10 @@ structure Laws (M : Mach) (chk : Nat → Nat → Bool) (ok : M.σ → Prop) (G :
 * `update(b, v)` that returned: some pair with base time ≥ `b` is published at an index its view
   at return covers - its own pair if it was accepted, a strictly newer one if it was ignored;
 * `try_update(b, v)` that returned `true`: its own pair is published at such an index;
-* a call that panicked was given an invalid pair. -/
+* a call that panicked was given an invalid pair;
+* `sequence` returned `n` = the caller's view of `sequence` at its return (on SC: the number of
+  accepted updates published when its load executed), and `hist[n]` exists: `n` never exceeds
+  the number of accepted updates so far. -/
 def RecOK (chk : Nat → Nat → Bool) (hist : List (Nat × Nat)) (R : CallRec) : Prop :=
   R.vStart ≤ R.vRet ∧ R.tStart < R.tRet ∧
   match R.op, R.res with
@@ -814,6 +834,9 @@ def RecOK (chk : Nat → Nat → Bool) (hist : List (Nat × Nat)) (R : CallRec) 
   | .tryUpdate _ _, .bool false => True
   | .tryUpdate _ _, .snap _ _ => False
   | .tryUpdate b v, .panic => chk b v = false
+  | .sequence, .seqv n => n = R.vRet ∧ n < hist.length
+  | .sequence, _ => False
+  | _, .seqv _ => False
 
 theorem RecOK_ext {chk : Nat → Nat → Bool} {hist : List (Nat × Nat)} {R : CallRec} (y : List (Nat × Nat))
     (h : RecOK chk hist R) : RecOK chk (hist ++ y) R := by
@@ -827,6 +850,9 @@ theorem RecOK_ext {chk : Nat → Nat → Bool} {hist : List (Nat × Nat)} {R : C
   · exact h3
   · obtain ⟨j, a, b⟩ := h3; exact ⟨j, a, getElem?_append_some _ b⟩
   · exact h3
+  · exact h3
+  · exact h3
+  · exact ⟨h3.1, by rw [List.length_append]; have := h3.2; omega⟩
   · exact h3
   · exact h3
 
@@ -1028,6 +1054,10 @@ theorem ginv_step {M : Mach} {chk : Nat → Nat → Bool} {ok : M.σ → Prop} {
             exact ⟨j, Nat.le_trans j1 (hvm t), by rw [hy, ← a1, ← a2]; exact getElem?_append_some _ j2⟩
           · exact finish (.bool false) (by simp [Local.result, hp]) ⟨hvv, c3, trivial⟩
           · exact finish .panic (by simp [Local.result, hp]) ⟨hvv, c3, hchk⟩
+        | sequence =>
+          obtain ⟨hp, hq⟩ := d2
+          obtain ⟨e1, e2⟩ := L.seqRet hI.ok hs hq
+          exact finish (.seqv (M.loc s' t).sq) (by simp [Local.result, hp]) ⟨hvv, c3, e1, by rw [e1]; exact e2⟩
 
 
 theorem ginv_init {M : Mach} {chk : Nat → Nat → Bool} {ok : M.σ → Prop} {G : Prop} {s0 : M.σ} (h0 : ok s0)
@@ -1242,8 +1272,8 @@ theorem uinv_step {chk : Nat → Nat → Bool} {s s' : State} (hI : Inv chk s) (
     have hwr := hI.writer t
     simp only [step] at hs
     cases hpc : (s.thr t).pc <;> simp only [Local.next, hpc] at hs
-    case idle | retSnap | retBool | sPanic | aPanic => simp at hs
-    case sSeq | sSeq2 | aSeq | sV | aV | sB =>
+    case idle | retSnap | retBool | sPanic | aPanic | retSeq => simp at hs
+    case sSeq | sSeq2 | aSeq | sV | aV | sB | qSeq =>
       simp at hs; subst hs
       simp only [upd_same, Local.feedLoad, hpc, UInv]
       all_goals (repeat' split)
@@ -1352,6 +1382,13 @@ theorem laws (chk : Nat → Nat → Bool) : (mach chk).Laws chk (Ok chk) True wh
   uinv := fun h => h.2 _
   sorted := fun h => h.1.sorted
   global := fun _ _ _ _ => rfl
+  seqRet := by
+    intro s s' t ts h hs hpc
+    have hpc : (s.thr t).pc = .qSeq := hpc
+    have hlen := h.1.len
+    simp only [step, Local.next, hpc] at hs
+    cases hs
+    exact ⟨by simp [Local.feedLoad, hpc], by show s.mem .seq < s.hist.length; omega⟩
 
 end Woodpile.Abt.SC
 
